@@ -8,6 +8,7 @@ import (
 	"go/ast"
 	"go/token"
 	"go/types"
+	"mocverif/internal/an"
 	"os"
 	"sort"
 	"strings"
@@ -34,6 +35,9 @@ type Program struct {
 	SSAPkgs map[string]*ssa.Package
 
 	Root, Sqlite, Prom, Cmd *ssa.Package
+
+	// Canon: translation of unexported names to the names the rules use (canon.go)
+	Canon *Canon
 
 	// ModFuncs: every SSA function (incl. closures, instantiations, wrappers
 	// excluded) whose source lies in the module, sorted by position.
@@ -117,6 +121,12 @@ func Load(dir string) (*Program, error) {
 			}
 		}
 	}
+	canon, err := p.buildCanon()
+	if err != nil {
+		return nil, err
+	}
+	p.Canon = canon
+	p.installCanon()
 	sort.Slice(p.ModFuncs, func(i, j int) bool {
 		a, b := p.ModFuncs[i], p.ModFuncs[j]
 		pa, pb := fset.Position(a.Pos()), fset.Position(b.Pos())
@@ -172,14 +182,27 @@ func (p *Program) PkgOf(fn *ssa.Function) string {
 	return ""
 }
 
-// Func returns the package-level function pkg.name, or nil.
+// Func returns the package-level function known to the rules as pkg.name
+// (canonical name, see canon.go), or nil.
 func (p *Program) Func(pkg *ssa.Package, name string) *ssa.Function {
+	if p.Canon != nil {
+		if f, ok := p.Canon.funcByName[pkg.Pkg.Path()+".."+name]; ok {
+			return p.SSA.FuncValue(f)
+		}
+		return nil
+	}
 	return pkg.Func(name)
 }
 
 // Method returns the method typ.name declared in pkg (pointer or value
 // receiver), or nil.
 func (p *Program) Method(pkg *ssa.Package, typ, name string) *ssa.Function {
+	if p.Canon != nil {
+		if f, ok := p.Canon.funcByName[pkg.Pkg.Path()+"."+typ+"."+name]; ok {
+			return p.SSA.FuncValue(f)
+		}
+		return nil
+	}
 	obj := pkg.Pkg.Scope().Lookup(typ)
 	if obj == nil {
 		return nil
@@ -203,6 +226,13 @@ func (p *Program) Method(pkg *ssa.Package, typ, name string) *ssa.Function {
 
 // NamedType looks up a named type in pkg.
 func (p *Program) NamedType(pkg *ssa.Package, name string) *types.Named {
+	if p.Canon != nil {
+		if tn, ok := p.Canon.typeByName[pkg.Pkg.Path()+"."+name]; ok {
+			n, _ := tn.Type().(*types.Named)
+			return n
+		}
+		return nil
+	}
 	obj := pkg.Pkg.Scope().Lookup(name)
 	if obj == nil {
 		return nil
@@ -237,19 +267,8 @@ func (p *Program) Pos(pos token.Pos) string {
 
 // FuncName is a stable printable name: pkg-relative, with receiver.
 func (p *Program) FuncName(fn *ssa.Function) string {
-	s := fn.String()
-	if o := fn.Origin(); o != nil {
-		s = o.String() // instances are reported under their generic origin
-	} else if par := fn.Parent(); par != nil {
-		root, chain := fn, ""
-		for root.Parent() != nil {
-			chain = "$" + root.Name()[strings.LastIndex(root.Name(), "$")+1:] + chain
-			root = root.Parent()
-		}
-		if o := root.Origin(); o != nil {
-			s = o.String() + chain
-		}
-	}
+	// instances are reported under their generic origin, unexported names canonically
+	s := an.FuncFullName(fn)
 	s = strings.ReplaceAll(s, ModulePath+"/handler/", "")
 	s = strings.ReplaceAll(s, ModulePath+"/middleware/", "")
 	s = strings.ReplaceAll(s, ModulePath+"/cmd/", "cmd/")
